@@ -18,7 +18,7 @@ impl Prop for C06 {
     fn id(&self) -> &'static str { "C06" }
     fn rule(&self) -> String {
         "encrypt: key_encrypt / pass_encrypt with explicit (sender, recipient, ephemeral, payload key | password, salt), plaintext sizes {0, 1, 13, 65535, 65536, 65537, 131072, random} and read partitions {full, oneshort, boundary, random, halves}: \
-         output must equal the Lean reference (docs/file-format.txt + Noise_X_25519_ChaChaPoly_SHA256 + RFC 8439/7748/5869/7914) byte for byte; \
+         output must equal the Lean reference (docs/file-format.txt + Noise_X_25519_ChaChaPoly_SHA256 + RFC 8439/7748/5869/7914) byte for byte; password lengths 63, 64, 65, 128, 129 (thorough: 0..200 around every HMAC block boundary); \
          decrypt: reference-built files with chunkings the encryptor never emits (1-byte chunks, a full chunk then 1 byte, empty final chunk, 65536-byte chunks, zero or junk counter fields) must decrypt in Rust to the plaintext and sender; \
          golden files shipped with the repository decrypt in Rust and in the model. non-trivial = distinct (mode, size, partition / chunking)".into()
     }
@@ -47,6 +47,8 @@ impl Prop for C06 {
             }
         }
         for _ in 0..(if th { 200 } else { 30 }) { v.push(case(&[("kind", "chunking".into()), ("mode", "key".into()), ("ch", "random".into()), ("ctr", (*rng.pick(&["seq", "zero", "junk"])).into()), ("seed", rng.next().to_string())])); }
+        // password lengths around the HMAC-SHA-256 block size (RFC 2104: only keys LONGER than 64 bytes are hashed first) and its multiples
+        for pl in [0usize, 1, 31, 32, 33, 55, 56, 63, 64, 65, 119, 127, 128, 129, 200] { if th || [63, 64, 65, 128, 129].contains(&pl) { v.push(case(&[("kind", "enc".into()), ("mode", "pass".into()), ("len", "13".into()), ("rk", "full".into()), ("pwlen", pl.to_string()), ("seed", rng.next().to_string())])); } }
         v.push(case(&[("kind", "golden".into()), ("which", "key".into())]));
         v.push(case(&[("kind", "golden".into()), ("which", "pass".into())]));
         v
@@ -58,7 +60,8 @@ impl Prop for C06 {
         let (s, r, e, pk) = (rng.bytes(32), rng.bytes(32), rng.bytes(32), rng.bytes(32));
         let (spk, rpk, epk) = (crate::props::c01::pub_of(&s), crate::props::c01::pub_of(&r), crate::props::c01::pub_of(&e));
         let pws: [&[u8]; 4] = [b"", b"pass123", "pässwörd".as_bytes(), &[0x41; 70]];
-        let pw = pws[rng.below(4)].to_vec(); let salt = rng.bytes(32);
+        let mut pw = pws[rng.below(4)].to_vec(); let salt = rng.bytes(32);
+        if !get(c, "pwlen").is_empty() { let n = getn(c, "pwlen"); pw = (0..n).map(|i| b"correct horse battery staple "[i % 29]).collect(); }
         match get(c, "kind") {
             "enc" => {
                 let len = getn(c, "len"); let p = payload(rng.next(), len);
